@@ -60,6 +60,25 @@ def request_scoped_override_with_inherited_mws(spec, m):
     return walk(spec["bp"], [])
 
 
+def request_scoped_override_below_inherited_wrap(spec, m):
+    """A nested blueprint overrides a request-scoped constructor while a wrapping middleware registered in an enclosing
+    blueprint applies to it: the shared value is built in the wrapping stage, i.e. resolved in the *parent's* scope."""
+    def walk(bp, wraps_here):
+        wraps_here = list(wraps_here)
+        for it in bp["items"]:
+            if it[0] == "wrap":
+                wraps_here.append(it[1])
+            elif it[0] == "nest":
+                if wraps_here and any(cit[0] == "ctor" and spec["ctors"][cit[1]]["lc"] == "request" and
+                                      len([c for c in spec["ctors"].values() if c["out"].split("<")[0] == spec["ctors"][cit[1]]["out"].split("<")[0]]) > 1
+                                      for cit in it[2]["items"]):
+                    return True
+                if walk(it[2], wraps_here):
+                    return True
+        return False
+    return walk(spec["bp"], [])
+
+
 def prefix_trailing_param_with_fallback(spec, m):
     for bp, _d in _bp_nodes(spec["bp"]):
         for it in bp["items"]:
